@@ -8,3 +8,12 @@ static inline void xv_items_any(struct xv_items *x)
         x->it[k].sensitive = nondet_bool(); x->data[k][XV_VAL - 1] = 0; x->it[k].data = x->it[k].type == item_type_none ? NULL : x->data[k]; } while (0)
     XV_IT(0); XV_IT(1); XV_IT(2); XV_IT(3);
 }
+/* one arbitrary item whose name/value (if set) is a HEAP string of 0..XV_VAL-1 bytes, as item.c makes them */
+static inline void xv_item_heap_any(struct item *it)
+{
+    unsigned t_ = nondet_uint(); __CPROVER_assume(t_ <= 2);
+    it->type = t_ == 0 ? item_type_none : t_ == 1 ? item_type_file : item_type_value;
+    it->sensitive = nondet_bool();
+    it->data = NULL;
+    if (it->type != item_type_none) { char *d = malloc(XV_VAL); __CPROVER_assume(d != NULL); d[XV_VAL - 1] = 0; it->data = d; }
+}
